@@ -6,7 +6,7 @@ Three attacks per theory combination:
   2. z3 with *seed terms*: every declared function symbol applied to a small pool of constants / containers (with duplicates) up to depth 2,
      so that E-matching has ground material for every trigger (finds 'total function symbol' traps such as dict_del on a sequence with duplicates);
   3. cvc5 (enumerative instantiation) on the same two problems.
-usage: consistency.py <seconds> [PID]"""
+usage: consistency.py <seconds> [PID|-] [stride]"""
 import itertools
 import os
 import subprocess
@@ -18,7 +18,8 @@ from pyvc.load import load_all; load_all()
 from pyvc import logic as L, registry as R
 import z3
 T = int(sys.argv[1]) if len(sys.argv) > 1 else 60
-PID = sys.argv[2] if len(sys.argv) > 2 else None
+PID = sys.argv[2] if len(sys.argv) > 2 and sys.argv[2] != "-" else None
+STRIDE = int(sys.argv[3]) if len(sys.argv) > 3 else 1       # every STRIDE-th seed batch (the thorough tier of a single property samples; the full tool run does all)
 combos = sorted({tuple(sorted(set(c.theories) | {"core"})) for c in R.CONTRACTS.values() if PID is None or PID in c.props})
 if PID is None:
     combos.append(tuple(L.all_theories()))
@@ -101,6 +102,8 @@ for combo in combos:
     t = time.time()
     hits = 0
     for bi, bt in enumerate(BATCHES):
+        if bi % STRIDE:
+            continue
         s.push()
         for e in bt:
             s.add(e)
